@@ -35,7 +35,7 @@ def wf_steps(steps):
 
 
 def legal(case):
-    return all(wf_steps(op[1]) for op in case["ops"] if op[0] in ("proto", "ptc"))
+    return all(wf_steps(op[1]) for op in case["ops"] if op[0] in ("proto", "ptc", "protoF", "ptcF"))
 
 
 # ----------------------------------------------------------------------------- generator
@@ -144,7 +144,11 @@ def gen_case(rng):
         else:
             rel = rng.random() < 0.4
             ops.append(["ptc", steps, gen_points(rng, steps, now, rel), rel])
-        if wf_steps(steps):
+        failing = rng.random() < 0.08
+        if failing:
+            # round 4b: the solver fails INSIDE the protocol call, in step k (0-based; k = len(steps): in none)
+            ops[-1] = [ops[-1][0] + "F", *ops[-1][1:], rng.randint(0, len(steps))]
+        if wf_steps(steps) and not failing:
             now = (boundaries(steps, now) or [now])[-1]
         r = rng.random()
         if r < 0.25:
@@ -172,6 +176,13 @@ def exhaustive_cases():
         for grid, rel in itertools.product(GRIDS, [False, True]):
             yield {"pars": c04.PARS0, "ops": [*pre, ["ptc", prot, grid, rel]], "fluxes": True}
             yield {"pars": c04.PARS0, "ops": [*pre, ["ptc", prot, grid, rel], ["sim", "8", 2]], "fluxes": True}
+        # round 4b: the solver fails in step k of the call (every k, incl. "none"), followed by a parameter read-out, a
+        # continuation attempt and a clear + fresh simulate
+        for k in range(len(prot) + 1):
+            tail = [["sim", "20", 2], ["clear"], ["sim", "1", 2]]
+            yield {"pars": c04.PARS0, "ops": [*pre, ["protoF", prot, 2, k], *tail], "fluxes": True}
+            yield {"pars": c04.PARS0, "ops": [*pre, ["ptcF", prot, GRIDS[0], False, k], *tail], "fluxes": True}
+            yield {"pars": c04.PARS0, "ops": [*pre, ["ptcF", prot, GRIDS[6], True, k], *tail], "fluxes": True}
 
 
 def shape_of(case):
@@ -182,6 +193,10 @@ def shape_of(case):
             out.append("R")
         elif o[0] == "ptc":
             out.append("Qr" if o[3] else "Qa")
+        elif o[0] == "protoF":
+            out.append(f"R!{min(o[3], 3)}")
+        elif o[0] == "ptcF":
+            out.append(("Qr" if o[3] else "Qa") + f"!{min(o[4], 3)}")
         else:
             out.append(c04.shape_of({"ops": [o]}))
     return "".join(out)
@@ -223,12 +238,12 @@ def shrink(ctx, case):
         for i in range(len(ops)):
             yield dict(c, ops=ops[:i] + ops[i + 1:])
         for i, o in enumerate(ops):
-            if o[0] in ("proto", "ptc") and len(o[1]) > 1:
+            if o[0] in ("proto", "ptc", "protoF", "ptcF") and len(o[1]) > 1:
                 for j in range(len(o[1])):
                     o2 = list(o)
                     o2[1] = o[1][:j] + o[1][j + 1:]
                     yield dict(c, ops=ops[:i] + [o2] + ops[i + 1:])
-            if o[0] == "ptc" and len(o[2]) > 1:
+            if o[0] in ("ptc", "ptcF") and len(o[2]) > 1:
                 for j in range(len(o[2])):
                     o2 = list(o)
                     o2[2] = o[2][:j] + o[2][j + 1:]
@@ -270,6 +285,8 @@ def py_oracle(case, real):
         return []
     ops2 = []
     now = F(0)
+    if any(op[0] in ("protoF", "ptcF") for op in real["ops"]):
+        return []
     for op in real["ops"]:
         if op[0] == "proto":
             t = now
